@@ -428,6 +428,8 @@ type FuncContract struct {
 	Line      int
 	Guards    []string
 	Uses      []string
+	ParamContracts map[string]string
+	CallAsserts map[string][]*Clause
 	PkgPath   string
 	HavocAll  bool
 	Cover     bool
@@ -508,7 +510,7 @@ func NewContractSet() *ContractSet {
 }
 
 var topKeywords = map[string]bool{"func": true, "extern": true, "trusted": true, "spec": true, "ghost": true, "axiom": true, "lemma": true, "const": true, "guarded": true, "pred": true}
-var clauseKeywords = map[string]bool{"requires": true, "ensures": true, "modifies": true, "loop": true, "safety": true, "pure": true, "noeffect": true, "for": true, "bounded": true, "havocall": true, "noreturn": true, "uses": true, "option": true}
+var clauseKeywords = map[string]bool{"requires": true, "ensures": true, "modifies": true, "loop": true, "safety": true, "pure": true, "noeffect": true, "for": true, "bounded": true, "havocall": true, "noreturn": true, "uses": true, "option": true, "calls": true, "at": true}
 
 // ParseContractFile reads the //@ lines of a file. pkgPath is the import path
 // of the package the file belongs to ("" for shared spec files).
@@ -594,6 +596,32 @@ func (cs *ContractSet) ParseContractFile(path, pkgPath string) error {
 			} else if cur != nil {
 				cur.Uses = append(cur.Uses, splitList(rest)...)
 			}
+		case "at":
+			// at <callee> requires [label] expr : extra obligation at every call of <callee> in this function
+			parts := strings.Fields(rest)
+			if cur == nil || len(parts) < 3 || parts[1] != "requires" {
+				return fail(fmt.Errorf("at <callee> requires <expr>"))
+			}
+			src := strings.TrimSpace(rest[strings.Index(rest, "requires")+len("requires"):])
+			label, src := splitLabel(src)
+			e, err := ParseCExpr(src)
+			if err != nil {
+				return fail(err)
+			}
+			if cur.CallAsserts == nil {
+				cur.CallAsserts = map[string][]*Clause{}
+			}
+			cur.CallAsserts[parts[0]] = append(cur.CallAsserts[parts[0]], &Clause{Kind: "requires", Label: label, Src: src, Expr: e, File: path, Line: rl.line})
+		case "calls":
+			// calls <param> as <extern contract name>
+			parts := strings.Fields(rest)
+			if cur == nil || len(parts) != 3 || parts[1] != "as" {
+				return fail(fmt.Errorf("calls <param> as <contract>"))
+			}
+			if cur.ParamContracts == nil {
+				cur.ParamContracts = map[string]string{}
+			}
+			cur.ParamContracts[parts[0]] = parts[2]
 		case "safety":
 			cur.Safety = true
 		case "pure":
